@@ -350,6 +350,8 @@ const (
 	certNoSgx6         // six extensions, none with the SGX id
 	certNoSgx5         // the SGX extension simply left out
 	certDecoy          // six extensions; one whose id is the PPID OID (SGX id + .1) precedes the SGX extension
+	certSgxNotLast     // six extensions; the SGX extension is the fifth, an unrelated one follows it
+	certSgxThenDecoy   // six extensions; the SGX extension is the fifth, an SGX-shaped value under another id follows it
 )
 
 type c13gen struct {
@@ -376,6 +378,13 @@ func (g *c13gen) run(kind string, expect int, v c13vals, value []byte, mode int)
 		extra = []pkix.Extension{other}
 	case certNoSgx5:
 		extra = nil
+	case certSgxNotLast:
+		extra, crldp = []pkix.Extension{sgx, other}, false
+	case certSgxThenDecoy:
+		// the follower carries a well-formed SGX extension VALUE of another platform under an unrelated id
+		dv := c13encode(c13rand(g.rng))
+		other.Value = dv.value()
+		extra, crldp = []pkix.Extension{sgx, other}, false
 	case certDecoy:
 		extra, crldp = []pkix.Extension{{Id: asn1.ObjectIdentifier(c13OidPPID), Value: dOct(hx.RandBytes(g.rng, 16))}, sgx}, false
 	}
@@ -728,6 +737,8 @@ func c13(r *hx.Run) {
 		g.run("no-sgx-extension:five", expErr, v, e.value(), certNoSgx5)
 		g.run("extension-count:five", expFree, v, e.value(), certFive)
 		g.run("extension-count:seven", expFree, v, e.value(), certSeven)
+		g.run("extension-order:sgx-not-last", expExact, v, e.value(), certSgxNotLast)
+		g.run("extension-order:sgx-then-sgx-shaped-value-under-another-id", expExact, v, e.value(), certSgxThenDecoy)
 	}
 
 	// ---- 9. outside the statement's premise and error list (O-4 …): the model pins what the code does ----
